@@ -79,49 +79,42 @@ type In struct {
 
 // ---------------------------------------------------------------- Coq printing
 
-// pool interns the numerals of one case as let-bound names: coqc spends ~0.3 ms per numeral, and
-// scores, doc values and ids repeat many times inside a case. A byte string is written as ONE
-// numeral, (bs 0x01<hex>) (decoded by TopNCorr.bs).
-type pool struct {
-	names map[string]string
-	defs  []string
-}
+// pool prints the numbers of one case. coqc spends ~0.4 ms elaborating a Z numeral but next to
+// nothing on a primitive-integer literal, so every number is written as a %uint63 literal and
+// converted inside Coq (TopNCorr.zi / bs / bn): a byte string of up to 7 bytes is ONE literal,
+// 0x01 followed by its bytes; longer strings are chunked.
+type pool struct{}
 
-func newPool() *pool { return &pool{names: map[string]string{}} }
+func newPool() *pool { return &pool{} }
 
-func (p *pool) intern(def string, prefix string) cf.T {
-	if n, ok := p.names[def]; ok {
-		return cf.T(n)
-	}
-	n := fmt.Sprintf("%s%d", prefix, len(p.defs))
-	p.names[def] = n
-	p.defs = append(p.defs, "let "+n+" := "+def+" in ")
-	return cf.T(n)
-}
+func chunk(b []byte) string { return fmt.Sprintf("0x01%x%%uint63", b) }
 
 func (p *pool) bz(b []byte) cf.T {
-	if len(b) == 0 {
+	switch {
+	case len(b) == 0:
 		return "(@nil Z)"
+	case len(b) <= 7:
+		return cf.T("(bs " + chunk(b) + ")")
 	}
-	return p.intern(fmt.Sprintf("bs 0x01%x", b), "b")
+	var cs []string
+	for len(b) > 0 {
+		k := min(7, len(b))
+		cs = append(cs, chunk(b[:k]))
+		b = b[k:]
+	}
+	return cf.T("(bn [" + strings.Join(cs, "; ") + "])")
 }
 func (p *pool) bzs(s string) cf.T { return p.bz([]byte(s)) }
-func (p *pool) hx(u uint64) cf.T  { return p.intern(fmt.Sprintf("0x%x", u), "z") }
 
-// wrap puts the let-bindings in front of the case term
-func (p *pool) wrap(body cf.T) cf.T {
-	if len(p.defs) == 0 {
-		return body
+// hx prints a number below 2^63 (hit numbers, totals, bit patterns of non-negative floats)
+func (p *pool) hx(u uint64) cf.T {
+	if u>>63 != 0 {
+		return cf.T(fmt.Sprintf("0x%x", u)) // plain Z numeral
 	}
-	var sb strings.Builder
-	sb.WriteString("(")
-	for _, d := range p.defs {
-		sb.WriteString(d)
-	}
-	sb.WriteString(string(body))
-	sb.WriteString(")")
-	return cf.T(sb.String())
+	return cf.T(fmt.Sprintf("(zi 0x%x%%uint63)", u))
 }
+
+func (p *pool) wrap(body cf.T) cf.T { return body }
 
 // lst prints a list whose element type is named when it is empty: an untyped [] costs coqc a
 // unification variable, and thousands of them in one definition make elaboration quadratic.
@@ -438,13 +431,13 @@ func gen(f vh.Flags, r *vrand.R, emit func(In)) {
 	nc := f.N(1500, 45000)
 	for k := 0; k < nc; k++ {
 		var n int
-		switch r.Intn(10) {
-		case 0, 1, 2:
+		switch x := r.Intn(100); {
+		case x < 35:
 			n = r.Range(0, 12)
-		case 3, 4, 5:
+		case x < 70:
 			n = r.Range(8, 40)
-		case 6, 7:
-			n = r.Range(30, 120)
+		case x < 92:
+			n = r.Range(30, 100)
 		default:
 			n = r.Range(100, 300)
 		}
@@ -848,6 +841,7 @@ func main() {
 			"API level: Index.Search on scorch(in-memory) and upsidedown indexes built in several batches with deletes and re-indexing, the implementation's own " +
 			"Size=all listing (in HitNumber order, with hit.Sort keys) is the match stream, probes = From/Size tilings, SearchAfter walks, SearchBefore walks, random anchors; " +
 			"non-trivial: collector cases where something is evicted and something returned, API cases with >=3 hits and at least one SearchAfter/SearchBefore probe",
-		ShardSize: 40,
+		ShardSize: 100,
+		Preamble:  "From Coq Require Import Uint63.\n",
 	}, gen, exec)
 }
